@@ -25,6 +25,8 @@ USERS = [
     ("sum_w", "foo(X) :- X = #sum {{ S,V : {H} }}.", 2),
     ("sum_w_sib", "foo(X) :- X = #sum {{ S,V : {H} ; A : t(A) }}.", 2),
     ("sum_w_sib_unify", "foo(X) :- X = #sum {{ S,V : {H} ; A,B : dpe(B,A) }}.", 2),
+    ("sum_w_sib3", "foo(X) :- X = #sum {{ S,V : {H} ; A,B,B : dpe(B,A) }}.", 2),
+    ("sum_w_sib3c", "foo(X) :- X = #sum {{ S,V : {H} ; A,B,x : dpe(B,A) }}.", 2),
     ("sum_w_sib_const", "foo(X) :- X = #sum {{ S,V : {H} ; 2,1 : t(2) }}.", 2),
     ("sumplus_w", "foo(X) :- X = #sum+ {{ S,V : {H} }}.", 2),
     ("count_w", "foo(X) :- X = #count {{ S,V : {H} }}.", 2),
@@ -59,6 +61,8 @@ USERS = [
     ("anon", "foo :- {HA}, S > 1.", 2),
     ("two_uses", "foo(X) :- X = #sum {{ S,V : {H} }}. bar(V) :- {H}, S > 2.", 2),
     ("plain_body", "foo(V,S) :- {H}.", 2),
+    ("interval_arg", "foo :- h(1..2,S), S > 2.", 2),
+    ("interval_arg_agg", "foo(X) :- X = #sum {{ S,V : h(V,S), V = 1..2 }}.", 2),
     ("sum_w_outer_clash", "foo(Y,X) :- t(Y), X = #sum {{ S,V : {H} }}.", 2),
     ("max_w_outer_clash", "foo(Y,X) :- t(Y), X = #max {{ S,V : {H} }}.", 2),
     ("sum_w_outer_clash_neg", "foo(Y) :- t(Y), not 3 <= #sum {{ S,V : {H} }}.", 2),
